@@ -48,7 +48,7 @@ def _table(name, shape, offset, bs=1, ttype="varying"):
     "lookup the generators use), each argument tuple gives one block under the dof maps of its own tables with its own restrictions, "
     "factors and flags, the diagonal part keeps exactly the blocks whose dof maps coincide, and the active tables are the referenced "
     "non-trivial ones",
-    min_instances=6,
+    min_instances=5,
 )
 def gen_irblocks(repo, res):
     m = repo.mod(IRI)
@@ -203,44 +203,118 @@ def gen_irblocks(repo, res):
     run("bilinear form without permuted tables", "full", perm_axis=1)
     run("linear interior-facet form", "full", rank2=False)
     run("linear form with part=diagonal", "diagonal", rank2=False)
-    # consumer side: modified_arguments is built from argkeys in order
+    # consumer side (modified_arguments built from argkeys in order): GEN-INTEGRAL-DRIVER interprets compute_integral_ir as a whole
+
+
+@rule(
+    "GEN-INTEGRAL-DRIVER",
+    ["C03", "C08", "C01", "C11"],
+    "ffcx.ir.integral.compute_integral_ir (the loop over integration domains and quadrature rules) interpreted with a stub for the per-rule "
+    "analysis: every (domain, rule) is analysed with its own integrand, the tables accumulated so far *for that domain* and the caller's cell, "
+    "types, shape and options; its record carries the graph, the modified arguments in argkeys order and the blocks of that very rule; the "
+    "tables of a domain are the union over its rules; needs_facet_permutations is true whenever some rule of some domain has a table with "
+    "more than one permutation slice (the kernel then reads quadrature_permutation), whatever comes before or after it",
+    min_instances=5,
+)
+def gen_integral_driver(repo, res):
+    from ..npmodel import NDArr, install_arrays
+
+    m = repo.mod(IRI)
     g = m.func("compute_integral_ir")
     res.functions.add(g.key)
-    key = f"{g.key}:modified_arguments"
-    res.ob(key)
-    from ..sliceint import find_store
-    import ast
+    loc = m.line(g.node)
 
-    found = None
-    for n in ast.walk(g.node):
-        if isinstance(n, ast.keyword) and n.arg == "modified_arguments":
-            found = n.value
-        if isinstance(n, ast.Dict):
-            for k_, v_ in zip(n.keys, n.values):
-                if isinstance(k_, ast.Constant) and k_.value == "modified_arguments":
-                    found = v_
-    if found is None and find_store(g.node, key="modified_arguments") is None:
-        raise AnalysisError("compute_integral_ir: construction of modified_arguments not found")
-    if found is None:
-        found = find_store(g.node, key="modified_arguments")[1]
-    it = Interp(repo, load_classes(repo), primary=IRI)
-    Fs = Node("ExpressionGraph", nodes={i: {"mt": f"mt{i}"} for i in range(4)})
-    it.ctx.append(m)
-    try:
-        names_ = {n.id for n in ast.walk(found) if isinstance(n, ast.Name) and isinstance(n.ctx, ast.Load)}
-        env = {"F": Fs, "argkeys": [0, 1, 2, 3]}
-        if not names_ - {"i", "k", "a", "ai"} <= set(env) | {"i", "k", "a", "ai"}:
-            res.notes.append(f"modified_arguments is built from {sorted(names_)}; judged by GEN-BLOCKS / GEN-EXPR only")
-        else:
-            try:
-                val = it.expr(found, env)
-            except Raised as e:
-                val = f"raises {e.what}"
-            if val != ["mt0", "mt1", "mt2", "mt3"]:
-                res.fail(key, f"modified_arguments built from argkeys [0, 1, 2, 3] is {val}; position m must hold the modified terminal of node m", m.line(g.node))
-    finally:
-        it.ctx.pop()
-    _ = copy
+    def tbl(p_):
+        return NDArr([[[[1.0]]]] * p_, (p_, 1, 1, 1))
+
+    def sample(name, tables, restrictions, mixed=False):
+        """what the per-rule analysis returns for the integrand `name`"""
+        F = Node("ExpressionGraph", name=f"F<{name}>", nodes={i: {"mt": f"{name}.mt{i}"} for i in range(4)})
+        terms = {f"{name}.t{k}": Node("ModifiedTerminal", restriction=r_) for k, r_ in enumerate(restrictions)}
+        return {"tables": dict(tables), "types": {k_: "varying" for k_ in tables}, "F": F, "argkeys": [2, 0, 3], "blocks": {"blocks-of": name}, "terms": terms, "mixed": mixed}
+
+    r1, r2, r3 = (Node("QuadratureRule", name=n_) for n_ in ("r1", "r2", "r3"))
+    # scenario -> {domain: {rule: (integrand name, per-rule analysis result)}}, expected flag (None = not constrained)
+    P2, P1 = tbl(2), tbl(1)
+    scenarios = {
+        "permuted table in the first of two rules, one-sided terms only": ({"triangle": [(r1, sample("a", {"FE0": P2, "FE1": P1}, ["+", "+"])), (r2, sample("b", {"FE2": P1}, ["+"]))]}, True),
+        "permuted table in the last of three rules": ({"triangle": [(r1, sample("a", {"FE0": P1}, [None])), (r2, sample("b", {"FE1": P1}, ["+", "-"])), (r3, sample("c", {"FE2": P2}, ["-"]))]}, True),
+        "permuted table in the second domain only": ({"triangle": [(r1, sample("a", {"FE0": P1}, [None]))], "quadrilateral": [(r1, sample("b", {"FE0": P2}, ["+"])), (r2, sample("c", {"FE3": P1}, [None]))]}, True),
+        "mixed-dimensional, permuted table in the first rule": ({"triangle": [(r1, sample("a", {"FE0": P2}, [None], mixed=True)), (r2, sample("b", {"FE1": P1}, [None], mixed=True))]}, True),
+        "no permuted table anywhere": ({"triangle": [(r1, sample("a", {"FE0": P1}, [None])), (r2, sample("b", {"FE1": P1}, [None]))]}, None),
+    }
+    for label, (doms, want_flag) in scenarios.items():
+        key = f"{g.key}:{label}"
+        res.ob(key)
+        it = install_arrays(Interp(repo, load_classes(repo), primary=IRI))
+        it.overrides["balance_modifiers"] = _PyCall(lambda e: e)
+        by_name = {}
+        integrands = {}
+        for d_, rules_ in doms.items():
+            integrands[d_] = {}
+            for r_, smp in rules_:
+                nm = smp["F"].f["name"][2:-1]
+                integrands[d_][r_] = f"integrand<{nm}>"
+                by_name[f"integrand<{nm}>"] = (d_, r_, smp)
+        calls = []
+
+        def inner(expression, existing, rule_, cell, itype, etype, shape, visualise, p_):
+            if expression not in by_name:
+                raise AnalysisError("compute_integral_ir hands something else than an integrand of the map to the per-rule analysis")
+            d_, r_, smp = by_name[expression]
+            calls.append({"domain": d_, "rule": rule_, "expected_rule": r_, "existing": set(existing), "args": (cell, itype, etype, tuple(shape), visualise, p_)})
+            return (dict(smp["tables"]), dict(smp["types"]), smp["F"], list(smp["argkeys"]), smp["blocks"], smp["terms"], smp["mixed"])
+        it.overrides["_compute_integral_ir"] = _PyCall(inner)
+        it.overrides["IntermediateIntegrandIR"] = _PyCall(lambda **k: dict(k))
+        it.overrides["IntermediateIntegralIR"] = _PyCall(lambda **k: dict(k))
+        cell = Node("Cell", cellname="prism")
+        opts = {"part": "full", "table_rtol": 1e-6}
+        try:
+            out = it.call_f(g, [cell, "interior_facet", "facet", integrands, (3, 3), opts, False])
+        except Raised as e:
+            res.fail(key, f"compute_integral_ir raises ({e.what}) on `{label}`", loc)
+            continue
+        if not isinstance(out, dict):
+            raise AnalysisError("compute_integral_ir did not return a record")
+        msgs = []
+        nrules = sum(len(v) for v in doms.values())
+        if len(calls) != nrules:
+            msgs.append(f"{len(calls)} per-rule analyses for {nrules} (domain, rule) pairs")
+        seen_tables = {d_: set() for d_ in doms}
+        for c_ in calls:
+            if c_["rule"] is not c_["expected_rule"]:
+                msgs.append(f"the integrand filed under rule {c_['expected_rule'].f['name']} is analysed with rule {c_['rule'].f['name']}")
+            if c_["args"] != (cell, "interior_facet", "facet", (3, 3), False, opts):
+                msgs.append("cell / integral type / entity type / argument shape / options are not handed on unchanged")
+            if c_["existing"] != seen_tables[c_["domain"]]:
+                msgs.append(f"the analysis of a rule on {c_['domain']} is given the existing tables {sorted(c_['existing'])}; the tables accumulated so far for that "
+                            f"domain are {sorted(seen_tables[c_['domain']])}: names and values are shared between the rules of one domain, never across domains")
+            d_, r_, smp = [v for v in by_name.values() if v[1] is c_["expected_rule"] and v[0] == c_["domain"]][0]
+            seen_tables[c_["domain"]] |= set(smp["tables"])
+        for d_, rules_ in doms.items():
+            want_t = set()
+            for r_, smp in rules_:
+                want_t |= set(smp["tables"])
+                rec = (out.get("integrand") or {}).get((d_, r_))
+                if not isinstance(rec, dict):
+                    msgs.append(f"no integrand record under ({d_}, {r_.f['name']})")
+                    continue
+                if rec.get("factorization") is not smp["F"] or rec.get("block_contributions") is not smp["blocks"]:
+                    msgs.append(f"the record of ({d_}, {r_.f['name']}) carries the graph / blocks of another rule")
+                nm = smp["F"].f["name"][2:-1]
+                if rec.get("modified_arguments") != [f"{nm}.mt2", f"{nm}.mt0", f"{nm}.mt3"]:
+                    msgs.append(f"modified_arguments of ({d_}, {r_.f['name']}) = {rec.get('modified_arguments')}, expected the terminals of nodes argkeys = [2, 0, 3] of "
+                                "that rule's graph, in that order (blocks refer to them by position)")
+            got_t = set((out.get("unique_tables") or {}).get(d_, {}))
+            if got_t != want_t or set((out.get("unique_table_types") or {}).get(d_, {})) != want_t:
+                msgs.append(f"unique tables of {d_} are {sorted(got_t)}, the rules of that domain use {sorted(want_t)}")
+        if want_flag is not None and out.get("needs_facet_permutations") is not True:
+            msgs.append(f"needs_facet_permutations = {out.get('needs_facet_permutations')!r} although a table with two permutation slices is active: the kernel reads "
+                        "quadrature_permutation while the descriptor tells the caller not to provide it")
+        if not isinstance(out.get("needs_facet_permutations"), bool):
+            msgs.append(f"needs_facet_permutations is {out.get('needs_facet_permutations')!r}, not a bool")
+        for msg in msgs[:3]:
+            res.fail(key, f"`{label}`: {msg}", loc)
 
 
 # ---- the per-form driver ffcx.ir.representation._compute_integral_ir, interpreted as a whole ---------------------------
